@@ -148,6 +148,12 @@ type c15Scenario struct {
 	MailFrom c15Spelled     `json:"mail_from"`
 	From     []c15FromField `json:"from_fields"`
 	Sender   *c15Mailbox    `json:"sender"`
+	// a second Sender field (a header may not have two: which one is "the Sender address" is anybody's guess, so
+	// every one of them has to be an address of the user, or the message has to be refused)
+	Sender2 *c15Mailbox `json:"second_sender,omitempty"`
+	// the same check object handled the same message before, while the mapping gave the user the entitlements
+	// of this set (the tables are changed at run time: a reloaded file, a changed database row)
+	EntBefore *int `json:"entitlements_before,omitempty"`
 	// position of the From fields relative to other fields: 0 first, 1 after Subject
 	Layout int `json:"layout"`
 }
@@ -247,7 +253,7 @@ func (sc c15Scenario) mayAccept() (bool, string) {
 	if allFrom {
 		return true, "every From address belongs to the user"
 	}
-	if sc.Sender != nil && sc.entitled(user, c15Addrs[sc.Sender.Addr.Idx]) {
+	if sc.Sender != nil && sc.entitled(user, c15Addrs[sc.Sender.Addr.Idx]) && (sc.Sender2 == nil || sc.entitled(user, c15Addrs[sc.Sender2.Addr.Idx])) {
 		return true, "Sender belongs to the user"
 	}
 	return false, "From address " + bad + " is not an address of " + user + " and neither is Sender"
@@ -307,6 +313,17 @@ func c15Gen(t *rapid.T) c15Scenario {
 			b.Style = 0
 		}
 		sc.Sender = &b
+		if rapid.IntRange(0, 3).Draw(t, "second_sender") == 0 {
+			b2 := c15GenBox(t, -1)
+			if b2.Style == 5 || b2.Style == 6 {
+				b2.Style = 0
+			}
+			sc.Sender2 = &b2
+		}
+	}
+	if rapid.IntRange(0, 4).Draw(t, "mapping_changed") == 0 {
+		e := rapid.IntRange(0, len(c15Entitlements)-1).Draw(t, "ent_before")
+		sc.EntBefore = &e
 	}
 	return sc
 }
@@ -321,6 +338,9 @@ func (sc c15Scenario) header() string {
 	}
 	if sc.Sender != nil {
 		b.WriteString("Sender: " + sc.Sender.render() + "\r\n")
+	}
+	if sc.Sender2 != nil {
+		b.WriteString("Sender: " + sc.Sender2.render() + "\r\n")
 	}
 	if sc.Layout == 0 {
 		b.WriteString("Subject: hello\r\n")
@@ -347,14 +367,17 @@ func c15Run(sc c15Scenario) (vs []ev.V) {
 		return []ev.V{ev.Vf("harness:init", "%v", err)}
 	}
 	c.log = log.Logger{Out: log.NopOutput{}}
-	switch sc.UserToEmail {
-	case 0:
-		c.userToEmail = &table.Identity{}
-	case 1:
-		c.userToEmail = c15MapTable{m: c15Entitlements[sc.Ent]}
-	default:
-		c.userToEmail = c15MultiTable{c15MapTable{m: c15Entitlements[sc.Ent]}}
+	setEnt := func(ent int) {
+		switch sc.UserToEmail {
+		case 0:
+			c.userToEmail = &table.Identity{}
+		case 1:
+			c.userToEmail = c15MapTable{m: c15Entitlements[ent]}
+		default:
+			c.userToEmail = c15MultiTable{c15MapTable{m: c15Entitlements[ent]}}
+		}
 	}
+	setEnt(sc.Ent)
 	switch sc.Prepare {
 	case 0:
 		c.emailPrepare = &table.Identity{}
@@ -368,17 +391,28 @@ func c15Run(sc c15Scenario) (vs []ev.V) {
 		meta.Conn.AuthUser = c15Spell(c15Users[sc.Auth.Idx], sc.Auth.Form)
 	}
 	ctx := context.Background()
-	st, err := c.CheckStateForMsg(ctx, meta)
-	if err != nil {
-		return []ev.V{ev.Vf("harness", "CheckStateForMsg: %v", err)}
-	}
-	defer st.Close()
 	hdrText := sc.header()
 	hdr, err := textproto.ReadHeader(bufio.NewReader(strings.NewReader(hdrText)))
 	if err != nil {
 		return nil // the endpoint would not have accepted such a header; not this check's business
 	}
 	mailFrom := c15Spell(c15Addrs[sc.MailFrom.Idx], sc.MailFrom.Form)
+	if sc.EntBefore != nil {
+		// the earlier message, under the earlier mapping (its outcome is not judged here)
+		setEnt(*sc.EntBefore)
+		if st0, err := c.CheckStateForMsg(ctx, &module.MsgMetadata{ID: "c15-earlier", Conn: meta.Conn}); err == nil {
+			if r := st0.CheckSender(ctx, mailFrom); !r.Reject && !r.Quarantine {
+				st0.CheckBody(ctx, hdr, nil)
+			}
+			st0.Close()
+		}
+		setEnt(sc.Ent)
+	}
+	st, err := c.CheckStateForMsg(ctx, meta)
+	if err != nil {
+		return []ev.V{ev.Vf("harness", "CheckStateForMsg: %v", err)}
+	}
+	defer st.Close()
 	accepted := true
 	if r := st.CheckSender(ctx, mailFrom); r.Reject || r.Quarantine {
 		accepted = false
